@@ -995,6 +995,14 @@ func c36Run(c *c36Case, x *c36Ctx) c36Result {
 	}
 	viols, out := c36CompareS(c, x, base, conv, contiguous, sc)
 	for i := range viols {
+		// precondition-based signature: an earlier histogram of the payload is not convertible
+		switch viols[i].Sig {
+		case "nhcb-exemplar-timestamp-mismatch", "keep-classic-exemplar-timestamp-mismatch", "nhcb-exemplars-of-failed-conversion-reused", "interleaved-label-sets-not-collated":
+		default:
+			if c.Broken != 0 {
+				viols[i].Sig += "-after-failed-conversion"
+			}
+		}
 		m := viols[i].Msg
 		viols[i].Msg = func() string { return fmt.Sprintf("%s (%s)\n%s", m(), opts, show()) }
 	}
@@ -1293,7 +1301,8 @@ func c36ValueInner(j c36Job, f func(c *c36Case) bool) {
 //	quick:    <= 6 lines: every timestamp combination, trailers {none, bare sample with timestamp};
 //	          7 lines: distinct timestamps only.
 //	thorough: <= 7 lines: everything; 8 lines (label sets a=x / a=y): every timestamp combination,
-//	          two trailers; 9 lines: distinct timestamps, two trailers, no skip-ST variant.
+//	          timestamp combinations {none, distinct, first only}, two trailers; 9 lines: text format,
+//	          distinct timestamps, two trailers.
 func c36OrderJobs(r *vx.Run) []c36Job {
 	var jobs []c36Job
 	all := func(n int) []int {
@@ -1314,7 +1323,7 @@ func c36OrderJobs(r *vx.Run) []c36Job {
 		}
 		for _, sh := range c36ShapeSets(len(lists)) {
 			n := c36NLines(sh)
-			tscs, trailers, fewOpts := all(tsl), all(4), false
+			tscs, trailers, fewOpts, textOnly := all(tsl), all(4), false, false
 			switch {
 			case r.Quick() && n <= 6:
 				trailers = two
@@ -1324,9 +1333,9 @@ func c36OrderJobs(r *vx.Run) []c36Job {
 				continue
 			case n <= 7:
 			case n == 8 && ll == 3:
-				trailers = two
+				tscs, trailers = []int{0, 2, 3}, two
 			case n == 9 && ll == 3:
-				tscs, trailers, fewOpts = []int{2}, two, true
+				tscs, trailers, fewOpts, textOnly = []int{2}, two, true, true
 			default:
 				continue
 			}
@@ -1335,7 +1344,7 @@ func c36OrderJobs(r *vx.Run) []c36Job {
 				for _, tr := range trailers {
 					for fm := c36Text; fm <= c36OM; fm++ {
 						for _, o := range c36Opts(fm) {
-							if o.TypeUnit || (fewOpts && o.SkipST) {
+							if o.TypeUnit || (fewOpts && o.SkipST) || (textOnly && fm != c36Text) {
 								continue
 							}
 							c := o
